@@ -294,7 +294,7 @@ def main(tier, seed):
     # ---- float link
     float_link(tabs, q, violations, trees)
     # ---- taylor
-    taylor(q, violations, 12 if tier == "quick" else 20)
+    taylor(q, violations, 40 if tier == "quick" else 170)      # 21! no longer fits a 64-bit integer; 171! no longer fits a double (the constructor raises there)
 
     # replay + known findings
     known = common.load_known()
@@ -322,7 +322,7 @@ def main(tier, seed):
                     "%d methods in method_list; row sums, strict lower-triangularity and all Butcher order conditions (rooted trees up to the advertised "
                     "order of each b row: %s conditions for orders 1..5) are z3 Real queries; the real runge_kutta_ti_coefficient is executed on a fully "
                     "symbolic tableau (all strictly lower-triangular a, all b, 1..6 stages) and shown equal to b A^(k-1) 1; the float64 arrays of the real "
-                    "objects are tied to the rationals within 1 ulp, and TaylorExpansion.coeff to 1/k! within 1 ulp." % (len(tabs), ntree),
+                    "objects are tied to the rationals within 1 ulp, and TaylorExpansion.coeff to 1/k! within 4 ulp for every order up to 40 (thorough: 170, the largest whose factorial fits a double)." % (len(tabs), ntree),
         obligations=q.n, discharged=q.unsat, checker_cmd="./check C19 --tier %s" % tier,
         trusted_base=["z3 5.1 (QF_LRA/QF_NRA)", "Python ast + fractions", "NumPy object-dtype loops (symbolic run of runge_kutta_ti_coefficient)"],
         evaluations=q.n, distinct_nontrivial=q.n, rule="one evaluation = one solver query (one order condition / row sum / ulp bound / symbolic identity)",
@@ -486,7 +486,7 @@ def taylor(q, violations, nmax):
             for k in range(n + 1):
                 f = float(te.coeff[k])
                 d = rv(Fraction(f)) - rv(Fraction(1, math.factorial(k)))
-                u = rv(Fraction(ulp(f)))
+                u = rv(Fraction(ulp(f)) * 4)      # the package divides by scipy.special.factorial (a double computed through the gamma function): measured up to 3.2 ulp off for k <= 170
                 terms.append(z3.And(d <= u, -d <= u))
         r = q.prove("taylor:order=%d" % n, z3.And(terms), keep=(n == 4))
         if r != "unsat":
